@@ -217,6 +217,15 @@ def expand_units(groups, probes, prop, tier, unit_pat):
                 inst = dict(u)
                 inst["uid"] = u["id"]
                 out.append(inst)
+    # variant: the same unit with allocations that never fail and no panic allowed
+    for inst in list(out):
+        if inst.get("also-nofail") == "yes":
+            v = dict(inst)
+            v["uid"] = inst["uid"].replace("@", ".nofail@") if "@" in inst["uid"] else inst["uid"] + ".nofail"
+            v["flags"] = (inst.get("flags", "") + " --no-malloc-may-fail").strip()
+            v["giflags"] = (inst.get("giflags", "") + " --no-malloc-may-fail").strip()
+            v["defs"] = ";;".join([d for d in inst.get("defs", "").split(";;") if not d.strip().startswith("PANIC_OK")] + ["PANIC_OK=0"])
+            out.append(v)
     if unit_pat:
         out = [u for u in out if fnmatch.fnmatch(u["uid"], unit_pat)]
     return out
@@ -610,6 +619,9 @@ def main():
                 results.append(r)
                 log("  %-9s %-44s obl=%d/%d %.1fs %s" % (r["status"], r["uid"], r["discharged"], r["obligations"],
                                                        r.get("solver_s", 0), r["why"][:300].replace("\n", " | ")))
+                for fo in r["failed"][:12]:
+                    log("      FAIL %s | %s | line %s" % (fo["property"], fo["description"][:160],
+                                                         fo["location"].get("line")))
         results.sort(key=lambda r: r["uid"])
         # ---- classify failures ------------------------------------------------
         violations, known_hits, undecided = [], [], []
@@ -619,7 +631,11 @@ def main():
                 undecided.append(r)
             elif r["status"] == "FAILED":
                 traces = None
+                seen_obl = set()
                 for fobl in r["failed"]:
+                    if fobl["obligation"] in seen_obl:
+                        continue
+                    seen_obl.add(fobl["obligation"])
                     kf = None
                     for k in known:
                         if (k["prop"] in r["props"] or k["prop"] == "*") and fnmatch.fnmatch(r["uid"], k["unit"]) \
